@@ -30,6 +30,8 @@ pub enum E {
     /// a long running sum: starting from the empty combination, `n` steps of `acc ± term`,
     /// `acc ± variable`, `acc ± constant` drawn from a small pseudo-random stream
     Chain(usize, u64),
+    /// a term over `Variable::Phantom` (stands for no wire: value zero)
+    PhantomTerm(ScalarSpec),
     // operators on Variable
     VarNeg(usize),
     VarMul(usize, ScalarSpec),
@@ -61,6 +63,7 @@ impl E {
             E::FromIterOwned(_) => "FromIterator(owned)",
             E::FromIterRef(_) => "FromIterator(&)",
             E::Chain(..) => "long-running-sum",
+            E::PhantomTerm(_) => "Phantom*F",
             E::VarNeg(_) => "-Var",
             E::VarMul(..) => "Var*F",
             E::VarMulU64(..) => "Var*u64",
@@ -99,6 +102,7 @@ impl E {
             E::FromIterOwned(t) => format!("collect([{}])", terms(t)),
             E::FromIterRef(t) => format!("collect(&[{}])", terms(t)),
             E::Chain(n, sd) => format!("running-sum({} steps, stream {})", n, sd),
+            E::PhantomTerm(c) => format!("Phantom*{}", c.short()),
             E::VarNeg(i) => format!("-{}", v(i)),
             E::VarMul(i, c) => format!("{}*{}", v(i), c.short()),
             E::VarMulU64(i, c) => format!("{}*{}u64", v(i), c),
@@ -137,6 +141,7 @@ impl E {
                     _ => -c,
                 }
             }).sum(),
+            E::PhantomTerm(_) => F::zero(),
             E::VarNeg(i) => -a[*i],
             E::VarMul(i, c) => a[*i] * c.to_f::<F>(),
             E::VarMulU64(i, c) => a[*i] * F::from(*c),
@@ -201,6 +206,7 @@ impl E {
                     _ => acc - c,
                 }
             }),
+            E::PhantomTerm(c) => Variable::Phantom(std::marker::PhantomData) * c.to_f::<F>(),
             E::VarNeg(i) => -v[*i],
             E::VarMul(i, c) => v[*i] * c.to_f::<F>(),
             E::VarMulU64(i, c) => v[*i] * *c,
@@ -247,9 +253,11 @@ fn gen_terms(ch: &mut Choices) -> Vec<(usize, ScalarSpec)> {
 fn gen_tree(ch: &mut Choices, depth: usize) -> E {
     let leaf = depth == 0 || ch.chance(70);
     if leaf {
-        return match ch.weighted(&[18, 10, 4, 9, 9, 8, 9, 6, 7, 7, 6, 7, 2]) {
+        return match ch.weighted(&[18, 10, 4, 9, 9, 8, 9, 6, 7, 7, 6, 7, 2, 3]) {
+            13 => E::PhantomTerm(ScalarSpec::gen_nonzero(ch)),
             12 => {
-                let n = match ch.below(4) {
+                let n = match ch.below(if depth == 0 { 4 } else { 5 }) {
+                    4 => 65_530 + ch.below(4000),
                     0 => 2 + ch.below(60),
                     1 => 1000 + ch.below(3000),
                     2 => 4090 + ch.below(12),
